@@ -9,14 +9,10 @@
      pyproject.py  _parse_from_prepared_metadata            -> analyse_pyproject
    The argument lists of the patch calls and the layout of the restores come from
    gen/C13Consts.v (T1).  Behaviour that looks wrong is modelled as it is:
-     - begin_patch stores None for a missing attribute, end_patch deletes the attribute when
-       the stored value is None (absent and None are conflated);
-     - delattr of an attribute that is gone raises, which aborts the remaining restores of
-       the same finally block / the same patch() exit loop;
-     - sys.path.remove / sys.meta_path.remove take out the FIRST equal entry only;
+     - sys.meta_path.remove takes out the FIRST equal entry only;
      - the module purge removes every fake module and every module whose file lies under the
        project's fake root, whoever loaded it;
-     - logging.captureWarnings(True) is never undone.
+     - logging.captureWarnings(True) is undone in the finally only when this call switched it on.
    A setup script is an arbitrary finite sequence of effects (op) with one of four endings. *)
 From Coq Require Import List String Ascii NArith Bool.
 From RC Require Import gen.C13Consts.
@@ -126,21 +122,24 @@ Definition pkey (p : pspec) : key := (p_mod p, p_attr p).
 (* begin_patch with a string module returns no token when the module is not loaded *)
 Definition target_ok (p : pspec) (s : st) : bool := negb (p_byname p) || mmem (p_mod p) (mods s).
 
-Definition token := option (key * value).
+(* a token remembers what the attribute held: None = the private _MISSING sentinel (the attribute
+   did not exist), Some v = its value (v may be Python's None) *)
+Definition token := option (key * option value).
 
 Definition old_of (o : option value) : value := match o with Some v => v | None => VNone end.
 
 Definition begin_patch (p : pspec) (nv : value) (s : st) : st * token :=
   if target_ok p s
-  then (set_attr (pkey p) nv s, Some (pkey p, old_of (get (pkey p) s)))
+  then (set_attr (pkey p) nv s, Some (pkey p, get (pkey p) s))
   else (s, None).
 
-(* None = delattr raised AttributeError *)
+(* end_patch: _MISSING => delete the attribute if it is (still) there; otherwise setattr.
+   Neither can raise (the result stays an option so that the callers' shape is unchanged). *)
 Definition end_patch (t : token) (s : st) : option st :=
   match t with
   | None => Some s
-  | Some (k, VNone) => match get k s with Some _ => Some (del_attr k s) | None => None end
-  | Some (k, old) => Some (set_attr k old s)
+  | Some (k, None) => Some (del_attr k s)
+  | Some (k, Some old) => Some (set_attr k old s)
   end.
 
 (* what the third argument of a triple evaluates to: a new object (function, StringIO(), a literal,
@@ -269,6 +268,20 @@ Definition capture_warnings (s : st) : st :=
   | Some _ => s
   end.
 
+Definition ov_eqb (a b : option value) : bool :=
+  match a, b with None, None => true | Some x, Some y => value_eqb x y | _, _ => false end.
+
+(* capturing_started = warnings.showwarning is not old_showwarning, after captureWarnings(True) *)
+Definition capture_started (s : st) : bool :=
+  negb (ov_eqb (get k_showwarning (capture_warnings s)) (get k_showwarning s)).
+
+(* logging.captureWarnings(False) *)
+Definition uncapture (s : st) : st :=
+  match get k_saved_showwarning s with
+  | Some VNone | None => s
+  | Some v => set_attr k_saved_showwarning VNone (set_attr k_showwarning v s)
+  end.
+
 Definition insert_fakes (names : list string) (s : st) : st :=
   with_mods (fold_left (fun m n => mset n KFake m) names (mods s)) s.
 
@@ -290,7 +303,9 @@ Fixpoint token_for (k : key) (ts : list (key * token)) : token :=
 Record ptoks := mkToks {
   t_old_cython : option value;
   t_begin : list (key * token);
-  t_inner : list token
+  t_inner : list token;
+  t_capture_started : bool;       (* capturing_started *)
+  t_saved_path : list string      (* saved_sys_path = list(sys.path), taken just before `with patches:` *)
 }.
 
 (* inl = reached the `with patches:` body; inr = an exception left _parse_setup_py earlier *)
@@ -310,7 +325,7 @@ Definition enter_parse (e : env) (s : st) : (st * ptoks) + st :=
       let '(s4, bt) := begin_all begin_patched begin_base s3 in
       let s5 := if meta_append_before_with then with_meta (meta s4 ++ [e_hook e]) s4 else s4 in
       let '(s6, it) := patch_enter inner_patched inner_base s5 in
-      inl (s6, mkToks oldc bt it)
+      inl (s6, mkToks oldc bt it (if captures_warnings then capture_started s else false) (path s5))
   end.
 
 (* the body of the try: sys.path.insert, os.chdir(abs_setupdir), exec of the script *)
@@ -327,6 +342,8 @@ Definition run_fstep (e : env) (tk : ptoks) (f : fstep) (s : st) : option st :=
                | Some v => Some (set_attr k_cythonize v s)
                end
   | FPathRemove => Some (with_path (remove_first_s (e_root e) (path s)) s)
+  | FPathRestore => Some (with_path (t_saved_path tk) s)       (* sys.path[:] = saved_sys_path *)
+  | FUncapture => Some (if t_capture_started tk then uncapture s else s)
   | FEndPatch k => end_patch (token_for k (t_begin tk)) s
   | FMetaRemove => if mem_n (e_hook e) (meta s)
                    then Some (with_meta (remove_first_n (e_hook e) (meta s)) s)
